@@ -3,7 +3,7 @@
    v1 lines are written  six kw pr sa da sp dp ++ [CR; b]  (six fields joined by single spaces, then CR and
    the byte that follows it); a replacement is any byte string without SP or CR (all_nosep). *)
 From PPP Require Import Base.Bytes Std.Utf8 Std.Text Std.Num Std.Ip Model.V1 Model.V2 Model.Auto Spec.V2Wire
-  Proofs.BytesFacts Proofs.V1Text Proofs.V1Lines Proofs.V1Shape Proofs.V1Props Proofs.V2Parse Proofs.AutoProps.
+  Proofs.BytesFacts Proofs.V1Text Proofs.V1Lines Proofs.V1Shape Proofs.V1Props Proofs.V2Parse Proofs.AutoProps Proofs.Extra.
 
 Theorem C12_keyword : forall kw pr sa da sp dp b,
   all_nosep [kw; pr; sa; da; sp; dp] = true -> lenN (six kw pr sa da sp dp ++ [CR; b]) <= MAX_LENGTH ->
@@ -56,6 +56,9 @@ Theorem C12_bytes : forall a b rest e, V1Text.no_cr a = true -> utf8_valid (a ++
   parse_header (a ++ [CR; b]) = Err e ->
   p1 (a ++ CR :: b :: rest) = Err (BParse e) /\ is_incomplete1 (p1 (a ++ CR :: b :: rest)) = err1_is_incomplete e.
 Proof. exact p1_blame. Qed.
+Theorem C12_str : forall a b rest e, V1Text.no_cr a = true -> utf8_valid (a ++ CR :: b :: rest) = true ->
+  utf8_valid (a ++ [CR; b]) = true -> parse_header (a ++ [CR; b]) = Err e -> p1s (a ++ CR :: b :: rest) = Err e.
+Proof. exact p1s_blame. Qed.
 Theorem C12_long : forall a b rest, V1Text.no_cr a = true -> MAX_LENGTH < lenN a + 2 ->
   p1 (a ++ CR :: b :: rest) = Err (BParse HeaderTooLong) \/ p1 (a ++ CR :: b :: rest) = Err BInvalidUtf8.
 Proof. exact p1_too_long. Qed.
@@ -103,6 +106,7 @@ Print Assumptions C12_destination_port.
 Print Assumptions C12_suffix_tcp.
 Print Assumptions C12_suffix_unknown.
 Print Assumptions C12_bytes.
+Print Assumptions C12_str.
 Print Assumptions C12_long.
 Print Assumptions C12_utf8.
 Print Assumptions C12_signature.
